@@ -20,30 +20,47 @@ Section Repaired.
   Notation step := (rstep empty col_of syncs allcols fixed).
   Notation run := (rrun empty col_of syncs allcols fixed).
 
-  (* completed: nothing rewritten since the last invalidation, and the stored computed sets are coherent *)
+  (* the CAS clock only grows *)
+  Lemma clock_step : forall st op, r_clock st <= r_clock (step st op).
+  Proof.
+    intros st op. destruct op as [w|reset regen cols|c s| |ck ch|pseqs|u]; cbn [rstep];
+      [unfold do_write | unfold do_start | unfold do_visit | unfold do_stop | unfold do_crash | unfold do_finish | unfold do_load];
+      destruct (r_state st);
+      repeat match goal with
+             | |- context [if ?c then _ else _] => destruct c
+             | |- context [match ?q with [] => _ | _ :: _ => _ end] => destruct q
+             end; cbn; lia.
+  Qed.
+
+  (* a resync write implies a positive clock; completed (or no run yet): nothing rewritten since the last invalidation *)
   Definition CInv (st : rst) : Prop :=
+    (r_dirty st = true -> 0 < r_clock st) /\
     match r_state st with
-    | MCompleted => r_dirty st = false /\ coherent (r_docs st) (r_ps st)
-    | MNone => r_dirty st = false
+    | MCompleted | MNone => r_dirty st = false
     | _ => True
     end.
 
   Lemma cinv_step : forall st op, CInv st -> CInv (step st op).
   Proof.
-    intros st op C. destruct op as [w|reset regen cols|c s| |ck ch|pseqs|u]; cbn [rstep].
-    - unfold do_write, CInv in *. cbn. destruct (r_state st); auto. destruct C as [C1 C2]. split; [exact C1|].
-      apply (write_coherent body empty). exact C2.
-    - unfold do_start. destruct (r_state st) eqn:Es; try exact C;
-        (destruct (negb (subset N.eqb (if null cols then allcols else cols) allcols)); [exact C | exact I]).
-    - unfold do_visit. destruct (r_state st) eqn:Es; try exact C.
-      destruct (qget (r_queue st) c); [exact C|]. destruct (e_skip e); exact I.
-    - unfold do_stop. destruct (r_state st) eqn:Es; try exact C. exact I.
-    - unfold do_crash. destruct (r_state st) eqn:Es; try exact C. exact I.
+    intros st op C. pose proof C as [C1 C2]. pose proof (clock_step st op) as Hck.
+    destruct op as [w|reset regen cols|c s| |ck ch|pseqs|u]; cbn [rstep] in *.
+    - unfold do_write, CInv in *. cbn in *. split; [intros H; specialize (C1 H); lia | exact C2].
+    - unfold do_start in *. destruct (r_state st) eqn:Es; try exact C;
+        (destruct (negb (subset N.eqb (if null cols then allcols else cols) allcols)); [exact C | split; [exact C1 | exact I]]).
+    - unfold do_visit in *. destruct (r_state st) eqn:Es; try exact C.
+      destruct (qget (r_queue st) c); [exact C|]. destruct (e_skip e); [split; [exact C1 | exact I]|].
+      unfold CInv. cbn in *. split; [|exact I].
+      destruct (visit_wrote col_of syncs fixed (r_regen st) s (e_id e) (r_docs st)); [intros _; lia|].
+      rewrite orb_false_r. exact C1.
+    - unfold do_stop. destruct (r_state st) eqn:Es; try exact C. split; [exact C1 | exact I].
+    - unfold do_crash. destruct (r_state st) eqn:Es; try exact C. split; [exact C1 | exact I].
     - unfold do_finish. destruct (r_state st) eqn:Es; try exact C.
       destruct (forallb (fun p => null (snd p)) (r_queue st)); [|exact C].
-      unfold CInv. cbn. rewrite Hfix. cbn. split; [reflexivity | apply coherent_invalidated].
-    - unfold do_load, CInv in *. cbn. destruct (r_state st); auto. destruct C as [C1 C2]. split; [exact C1|].
-      apply load_coherent. exact C2.
+      unfold CInv. cbn. rewrite Hfix. cbn.
+      match goal with |- context [if ?c then false else _] => destruct c eqn:E end; [split; [discriminate | reflexivity]|].
+      apply orb_false_iff in E. destruct E as [E _]. apply orb_false_iff in E. destruct E as [E _]. apply N.ltb_ge in E.
+      destruct (r_dirty st); [specialize (C1 eq_refl); lia | split; [discriminate | reflexivity]].
+    - unfold do_load, CInv in *. cbn. exact C.
   Qed.
 
   Lemma cinv_run : forall ops st, CInv st -> CInv (run st ops).
@@ -52,14 +69,44 @@ Section Repaired.
   Theorem completed_run_invalidates : forall ops st0, r_state st0 = MNone -> r_dirty st0 = false ->
     r_state (run st0 ops) = MCompleted -> r_dirty (run st0 ops) = false.
   Proof.
-    intros ops st0 Hs Hd Hc. assert (C0 : CInv st0) by (unfold CInv; rewrite Hs; exact Hd).
-    pose proof (cinv_run ops st0 C0) as C. unfold CInv in C. rewrite Hc in C. apply C.
+    intros ops st0 Hs Hd Hc. assert (C0 : CInv st0) by (unfold CInv; rewrite Hs, Hd; split; [discriminate | reflexivity]).
+    pose proof (cinv_run ops st0 C0) as [_ C]. rewrite Hc in C. exact C.
   Qed.
+
+  (* on a database that has been written to (positive clock: the sequence counter is positive, so the invalidation
+     "at the current sequence" is effective): completed => the stored computed sets are coherent with the documents *)
+  Definition KInv (st : rst) : Prop :=
+    0 < r_clock st /\ (r_state st = MCompleted -> coherent (r_docs st) (r_ps st)).
+
+  Lemma kinv_step : forall st op, KInv st -> KInv (step st op).
+  Proof.
+    intros st op [K1 K2]. pose proof (clock_step st op) as Hck. split; [lia|].
+    destruct op as [w|reset regen cols|c s| |ck ch|pseqs|u]; cbn [rstep] in *.
+    - unfold do_write. cbn. intros Hc. apply (write_coherent body empty). apply K2. exact Hc.
+    - unfold do_start. destruct (r_state st) eqn:Es;
+        try (destruct (negb (subset N.eqb (if null cols then allcols else cols) allcols)));
+        cbn; intros Hc; first [discriminate Hc | (rewrite Es in Hc; discriminate Hc) | (apply K2; first [reflexivity | exact Hc])].
+    - unfold do_visit. destruct (r_state st) eqn:Es;
+        try (destruct (qget (r_queue st) c) as [|e q']; [|destruct (e_skip e)]);
+        cbn; intros Hc; first [discriminate Hc | (rewrite Es in Hc; discriminate Hc) | (apply K2; first [reflexivity | exact Hc])].
+    - unfold do_stop. destruct (r_state st) eqn:Es;
+        cbn; intros Hc; first [discriminate Hc | (rewrite Es in Hc; discriminate Hc) | (apply K2; first [reflexivity | exact Hc])].
+    - unfold do_crash. destruct (r_state st) eqn:Es;
+        cbn; intros Hc; first [discriminate Hc | (rewrite Es in Hc; discriminate Hc) | (apply K2; first [reflexivity | exact Hc])].
+    - unfold do_finish. destruct (r_state st) eqn:Es;
+        try (intros Hc; first [(rewrite Es in Hc; discriminate Hc) | (apply K2; first [reflexivity | exact Hc])]).
+      destruct (forallb (fun p => null (snd p)) (r_queue st)); [|intros Hc; rewrite Es in Hc; discriminate Hc].
+      cbn. intros _. rewrite Hfix. apply N.ltb_lt in K1. rewrite K1. cbn. apply coherent_invalidated.
+    - unfold do_load. cbn. intros Hc. apply load_coherent. apply K2. exact Hc.
+  Qed.
+
+  Lemma kinv_run : forall ops st, KInv st -> KInv (run st ops).
+  Proof. induction ops as [|op ops IH]; intros st K; cbn; [exact K | apply IH, kinv_step, K]. Qed.
 
   (* after a completed run (and whatever writes / loads followed it) every user's roles and effective channels are
      those recomputed from scratch from the documents as they are -- which, for the live documents of the selected
      collections, carry the new function's grants (complete_after_success) *)
-  Theorem completed_run_principals : forall ops st0, r_state st0 = MNone -> r_dirty st0 = false ->
+  Theorem completed_run_principals : forall ops st0, r_state st0 = MNone -> 0 < r_clock st0 ->
     let st := run st0 ops in
     r_state st = MCompleted ->
     coherent (r_docs st) (r_ps st) /\
@@ -67,10 +114,10 @@ Section Repaired.
       seteq (user_rl (r_docs st) u) (compute_user_rl (r_docs st) u) /\
       seteq (effective (r_docs st) (r_ps st) u) (effective (r_docs st) (invalidate_all (r_ps st)) (inval_user u)).
   Proof.
-    intros ops st0 Hs Hd st Hc. assert (C0 : CInv st0) by (unfold CInv; rewrite Hs; exact Hd).
-    pose proof (cinv_run ops st0 C0) as C. fold st in C. unfold CInv in C. rewrite Hc in C. destruct C as [_ C].
-    split; [exact C|]. intros u Hu. split; [|apply coherent_effective; assumption].
-    destruct C as [Cu _]. destruct (Cu u Hu) as [_ Hl]. unfold user_rl.
+    intros ops st0 Hs Hk st Hc. assert (K0 : KInv st0) by (split; [exact Hk | rewrite Hs; discriminate]).
+    pose proof (kinv_run ops st0 K0) as [_ K]. fold st in K. specialize (K Hc).
+    split; [exact K|]. intros u Hu. split; [|apply coherent_effective; assumption].
+    destruct K as [Cu _]. destruct (Cu u Hu) as [_ Hl]. unfold user_rl.
     destruct (u_rl u) as [c|]; [apply Hl; reflexivity | apply seteq_refl].
   Qed.
 End Repaired.
